@@ -8,13 +8,13 @@ variable (T : List Tok) (E : Tok)
 theorem sp_parseScopeModifier (d : TT) (k : Nat) (s : PState) (hi : Inv T E k s) :
     tri (El T E) (parseScopeModifier d) s (Post T E k (fun _ => True)) := by
   unfold parseScopeModifier
-  tsimp [hi.toks, hi.eof]
+  tstart hi
   tgo
 
 theorem sp_parsePoryswitchHeader (env : Env) (k : Nat) (s : PState) (hi : Inv T E k s) :
     tri (El T E) (parsePoryswitchHeader env) s (Post T E k (fun _ => True)) := by
   unfold parsePoryswitchHeader
-  tsimp [hi.toks, hi.eof]
+  tstart hi
   tgo
 
 def FpOk (fp : FmtParams) : Prop := fp.fontIdToken.type ≠ .STRING ∨ Tin T E fp.fontIdToken
@@ -35,7 +35,7 @@ theorem sp_formatNamedParams : ∀ (n : Nat) (fp : FmtParams) (k : Nat) (s : PSt
   | succ n ih =>
     intro fp k s hi hfp
     rw [formatNamedParams]
-    tsimp [hi.toks, hi.eof]
+    tstart hi
     tgo [ih, fpok_mk T E]
 
 
@@ -43,13 +43,13 @@ set_option maxHeartbeats 1000000 in
 theorem sp_parseFormatStringOperator (env : Env) (n : Nat) (k : Nat) (s : PState) (hi : Inv T E k s) :
     tri (El T E) (parseFormatStringOperator env n) s (Post T E k (fun r => Tin T E r.1)) := by
   unfold parseFormatStringOperator
-  tsimp [hi.toks, hi.eof, tri_exceptMatch]
+  have hs := hi.toks; have he := hi.eof; tsimp [hs, he, tri_exceptMatch]
   tgo [sp_formatNamedParams T E, fpok_tin T E, fpok_mk T E]
 
 theorem sp_parseTextValue (env : Env) (n : Nat) (k : Nat) (s : PState) (hi : Inv T E k s) :
     tri (El T E) (parseTextValue env n) s (Post T E k (fun _ => True)) := by
   unfold parseTextValue
-  tsimp [hi.toks, hi.eof]
+  tstart hi
   tgo [sp_parseFormatStringOperator T E]
 
 theorem sp_poryswitchTextCases (env : Env) (i : Nat) : ∀ (n : Nat) (acc : List (String × String × String))
@@ -61,13 +61,13 @@ theorem sp_poryswitchTextCases (env : Env) (i : Nat) : ∀ (n : Nat) (acc : List
   | succ n ih =>
     intro acc k s hi
     rw [poryswitchTextCases]
-    tsimp [hi.toks, hi.eof]
+    tstart hi
     tgo [ih, sp_parseTextValue T E]
 
 theorem sp_parsePoryswitchTextStatement (env : Env) (n : Nat) (k : Nat) (s : PState) (hi : Inv T E k s) :
     tri (El T E) (parsePoryswitchTextStatement env n) s (Post T E k (fun _ => True)) := by
   unfold parsePoryswitchTextStatement
-  tsimp [hi.toks, hi.eof]
+  tstart hi
   tgo [sp_parsePoryswitchHeader T E, sp_poryswitchTextCases T E]
 
 theorem sp_listBlock (env : Env) : ∀ n : Nat,
@@ -89,14 +89,14 @@ theorem sp_listBlock (env : Env) : ∀ n : Nat,
     refine ⟨?_, ?_, ?_⟩
     · intro kind am acc k s hi
       rw [parseListValue]
-      cases kind <;> tsimp [hi.toks, hi.eof] <;> tgo [ih1, ih2]
+      cases kind <;> tstart hi <;> tgo [ih1, ih2]
     · intro kind k s hi
       rw [parsePoryswitchListStatement]
-      tsimp [hi.toks, hi.eof]
+      tstart hi
       tgo [ih3, sp_parsePoryswitchHeader T E]
     · intro kind i acc k s hi
       rw [parsePoryswitchListCases]
-      tsimp [hi.toks, hi.eof]
+      tstart hi
       tgo [ih1, ih3]
 
 theorem sp_parseListValue (env : Env) (kind : ListKind) (am : Bool) (n : Nat) (acc : List Tok) (k : Nat)
@@ -107,7 +107,7 @@ theorem sp_parseListValue (env : Env) (kind : ListKind) (am : Bool) (n : Nat) (a
 theorem sp_parseMovesOperator (env : Env) (n : Nat) (k : Nat) (s : PState) (hi : Inv T E k s) :
     tri (El T E) (parseMovesOperator env n) s (Post T E k (fun _ => True)) := by
   unfold parseMovesOperator
-  tsimp [hi.toks, hi.eof]
+  tstart hi
   tgo [sp_parseListValue T E]
 
 theorem sp_cmdArgsLoop (env : Env) (sn : String) (id : Nat) (i : Nat) : ∀ (n : Nat) (a : CmdAcc)
@@ -119,14 +119,14 @@ theorem sp_cmdArgsLoop (env : Env) (sn : String) (id : Nat) (i : Nat) : ∀ (n :
   | succ n ih =>
     intro a k s hi ha
     rw [cmdArgsLoop]
-    tsimp [hi.toks, hi.eof]
+    tstart hi
     tgo [ih, sp_parseFormatStringOperator T E, sp_parseMovesOperator T E]
 
 theorem sp_parseCommandStatement (env : Env) (sn : String) (n : Nat) (k : Nat) (s : PState)
     (hi : Inv T E k s) :
     tri (El T E) (parseCommandStatement env sn n) s (Post T E k (fun r => ImpOK T E r.2)) := by
   unfold parseCommandStatement
-  tsimp [hi.toks, hi.eof]
+  tstart hi
   tgo [sp_cmdArgsLoop T E]
 
 end
